@@ -541,11 +541,13 @@ fn generate(rng: &mut Rng, max_body: usize) -> Generated {
     let version = *rng.pick(&["HTTP/1.1", "HTTP/1.0"]);
 
     // field lines
-    // 0..100 fields; the counts around 20 and 32 (where Rust's sorts stop using insertion sort) come up often
+    // 0..300 fields; the counts around 20 and 32 (where Rust's sorts stop using insertion sort) come up often
     let nfields = match rng.below(6) {
         0 => rng.range(0, 3),
         1 => rng.range(4, 18),
-        2 | 3 => *rng.pick(&[19usize, 20, 21, 22, 31, 32, 33, 34, 64, 100]),
+        2 => *rng.pick(&[19usize, 20, 21, 22, 31, 32, 33, 34, 64, 100]),
+        // ... and the round numbers at which a parser might stop storing fields (100, 128, 256)
+        3 => *rng.pick(&[19usize, 20, 21, 32, 33, 99, 100, 101, 127, 128, 129, 255, 256, 257, 300]),
         _ => rng.range(21, 100),
     };
     let dup_pool: Vec<&str> = (0..rng.range(1, 4)).map(|_| if rng.chance(1, 2) { *rng.pick(KNOWN) } else { *rng.pick(CUSTOM) }).collect();
